@@ -7,16 +7,24 @@ LEVEL = 'exploration'
 
 def judge(ctx, lb, item):
     data, origin = item
-    w = 1 + (len(data) + len(origin)) % 4 if True else 1
-    w = [1, 2, 4, 3][(len(data) * 7 + len(origin)) % 4]
+    h = (len(data) * 7 + len(origin)) % 4
+    w = [1, 2, 4, 3][h]
     argv = [lb, '-d', '-n', str(w)]
-    r = core.run(argv, stdin=data, timeout=120)
-    ctx.ev()
-    files = {'input.bz2': data}
-    info = dict(origin=origin, argv=argv, workers=w)
     verdict, inf, refout = ora.refbz(data)
     reason = inf['reason'] if verdict == 'INVALID' else (inf['exception'] or 'ok')
+    env = {}
+    hh = (len(data) * 13 + sum(data[:64])) % 5
+    if len(data) < 20000 and len(refout) < 30000 and hh < 3:
+        # buffer boundaries everywhere: resumed decoder states must enforce the same rules as the straight-line code
+        env['LBZIP2_VERIF_OUT_GRANUL'] = str([1, 2, 3, 5, 7, 64, 4096][(len(data) + hh) % 7])
+        env['LBZIP2_VERIF_IN_GRANUL'] = str([4, 8, 16, 64, 128, 256, 4096][(len(data) * 3 + hh) % 7])
+    r = core.run(argv, stdin=data, env=env, timeout=120)
+    ctx.ev()
+    files = {'input.bz2': data}
+    info = dict(origin=origin, argv=argv, workers=w, env=env)
     ctx.count('ref_%s' % verdict.lower())
+    if env:
+        ctx.count('runs_with_tiny_granules')
     if verdict == 'INVALID':
         ctx.count('reject_reason:' + reason)
         if not (reason == 'bad stream magic' and inf['at_bit'] == 0):
@@ -27,14 +35,14 @@ def judge(ctx, lb, item):
         return              # reject direction is C07's business
     ctx.count('accepted_by_lbzip2')
     okl, outl, why = ora.libbz2(data)
-    if verdict == 'INVALID' and not okl:
-        ctx.violation('accepted-invalid:' + reason.replace(' ', '-'),
-                      'lbzip2 -d exit 0 on input both oracles reject (refbz: %s at bit %d; %s); origin %s'
-                      % (reason, inf['at_bit'], why, origin), files, info)
+    if verdict != 'VALID' and not okl:
+        # refbz INVALID, or the "missing run length" exception, which libbz2 1.0.x rejects as well
+        why2 = reason if verdict == 'INVALID' else inf['exception']
+        ctx.violation('accepted-invalid:' + why2.replace(' ', '-'),
+                      'lbzip2 -d exit 0 on input both oracles reject (refbz: %s %s at bit %d; %s); origin %s env %s'
+                      % (verdict, why2, inf['at_bit'], why, origin, env), files, info)
         return
     if verdict == 'INVALID' or not okl:
-        if verdict == 'EXCEPTION' and r.out == refout:
-            return
         ctx.inconcl('oracles disagree: refbz %s/%s libbz2 %s (%s) origin %s' % (verdict, reason, okl, why, origin))
         return
     if refout != outl:
